@@ -273,6 +273,19 @@ def nontrivial(op, impl):
     return None
 
 
+def oracle_counts(chk, exe, ops):
+    """how many implementation answers the spec oracle actually judged (evidence only)"""
+    import collections
+    impl, _ = core.run_harness_lines(exe, (), ops, CASE_START)
+    spec = core.run_driver("spec", AREA, "\n".join(f"{o} ||| {i}" for o, i in zip(ops, impl)) + "\n")
+    c = chk.extra.setdefault("oracle_verdicts", {})
+    for (o, s_) in zip(ops, spec):
+        k = o.split(" ", 1)[0] + ":" + s_.split(" ", 1)[0]
+        c[k] = c.get(k, 0) + 1
+    g = sum(len(i.split("grid=")[1]) for i, s_ in zip(impl, spec) if s_ == "ok" and "grid=" in i)
+    chk.extra["grid_answers_judged_upper_bound"] = chk.extra.get("grid_answers_judged_upper_bound", 0) + g
+
+
 def run(chk):
     problems = chk.prove(MODULES, AUDIT, want_leanchecker=(chk.tier == "thorough"))
     exe, err = core.build_harness(HARNESS)
@@ -289,10 +302,11 @@ def run(chk):
         ops += c
     stats = corr.correspond(chk, AREA, exe, ops, case_start=CASE_START, classify=classify, sig_of=sig_of,
                             nontrivial=nontrivial)
+    oracle_counts(chk, exe, ops)
     rounds = 1 if quick else 8
     for _ in range(rounds):
         ops = []
-        for i in range(1500 if quick else 4000):
+        for i in range(6000 if quick else 12000):
             r = i % 10
             if r < 6:
                 ops += gen_conforming(rng, sack_on=(i % 37 != 0))
@@ -305,6 +319,7 @@ def run(chk):
                 ops += gen_conforming(rng, max_segs=120)
         stats += corr.correspond(chk, AREA, exe, ops, case_start=CASE_START, classify=classify, sig_of=sig_of,
                                  nontrivial=nontrivial)
+        oracle_counts(chk, exe, ops)
     for p in problems:
         # a theorem no longer checks: the runs above were the search for a concrete failing input
         found = stats.get("spec", 0) + stats.get("fault", 0)
